@@ -314,6 +314,10 @@ class Ctx:
         """Print VIOLATION lines, write evidence, return exit code."""
         rc = 0
         os.makedirs(os.path.join(VERIF, 'replays'), exist_ok=True)
+        for kf in known_findings():     # every listed (unrepaired) finding of this property is announced on every run
+            if kf.get('property') == self.prop and kf.get('status') == 'known' and kf.get('key') not in self.known_printed:
+                print('KNOWN-FINDING: property=%s %s' % (self.prop, kf.get('what', '')))
+                self.known_printed.add(kf.get('key'))
         if self.broken and not self.violations:
             # a proof obligation / the tie no longer checks and the search found no failing input
             body = {'property': self.prop, 'no_failing_input_found': True, 'broken': self.broken}
